@@ -10,6 +10,10 @@ CLAIMED = {
          "§5 C03", "partial: the prefix-closedness theorem itself is not yet proved (statement in DESIGN.md); closedness is evaluated on observed streams"),
  "C04": ("proof", "Theorems (Props/C04.v): for every refusal position the cache equals the old state plus exactly the accepted prefix; nothing is sent after a refusal; commit_one directly follows each accepted send; for every schedule over any number of cycles accepted = published, and a complete cycle reaches the view. Correspondence on real runs with refusal/open-failure/restart schedules; strict-replay and commit oracles.",
          "§5 C04", "producer modelled as an oracle of refused send indices; restarts via correspondence"),
+ "C13": ("proof", "Theorems (Props/C13.v): complete per-key specification of one merge step for a duplicate-free source (union / only-new with both sides dropped / only-existing enriched / intersection, attributes united with the earlier value kept, conflicting key removed and reported under use_cached_entry), row independence, duplicate-in-first-source flagged and removed. Correspondence of the model fold with the real Datamodel.fetch on random 2-3 source contents with duplicates plus the exhaustive 2-source/2-key/2-value universe over all constraints and both policies across polls; declarative oracle (key algebra, attribute union, cached fallback, no event for flagged keys).",
+         "§5 C13", "merge_constraints Jinja templates are outside the model (only pkey_merge_constraint); duplicate rows of non-first sources are covered by correspondence, the algebra theorem assumes duplicate-free sources"),
+ "C14": ("proof", "Theorems (Props/C14.v): the integrity loop returns a subset of the merged data that is closed under all constraints and contains every closed subset (greatest closed subset); it terminates within |data|+1 rounds; constraints are monotone; a single pass is refuted on a depth-2 chain. Correspondence with the real Datamodel.fetch over chains, two-parent and diamond types, constraints on any subset of types in any declaration order in both template forms, parents disappearing and returning; event-level oracle that filtered objects come back as 'added'.",
+         "§5 C14", "constraint language = conjunctions of '_SELF.a in P_pkeys' (also written with the <Type> list variable); other Jinja constraints are not modelled"),
 }
 REASON_TODO = "check not built yet in this revision (work in progress; see DESIGN.md §8)"
 def main():
